@@ -2,6 +2,10 @@
 package props
 
 import (
+	"go/constant"
+
+	"go/types"
+	"golang.org/x/tools/go/ssa"
 	"sort"
 	"strings"
 
@@ -73,4 +77,34 @@ func init() {
 			core.AnchorHints[name] = hint
 		}
 	}
+}
+
+// isSliceOfSlices: [][]T (a list of fragments).
+func isSliceOfSlices(t types.Type) bool {
+	sl, ok := t.Underlying().(*types.Slice)
+	if !ok {
+		return false
+	}
+	_, inner := sl.Elem().Underlying().(*types.Slice)
+	return inner
+}
+
+// condVia resolves a branch condition that is a phi of booleans (how `a || b` and `a && b` are built
+// outside an if-statement's own condition) for the edge `from` -> the phi's block: either a constant
+// (known) or the operand that decides on this edge.
+func condVia(cond ssa.Value, from *ssa.BasicBlock) (ssa.Value, bool, bool) {
+	ph, ok := cond.(*ssa.Phi)
+	if !ok || from == nil {
+		return cond, false, false
+	}
+	for i, pred := range ph.Block().Preds {
+		if pred == from && i < len(ph.Edges) {
+			e := ph.Edges[i]
+			if c, isC := e.(*ssa.Const); isC && c.Value != nil && c.Value.Kind() == constant.Bool {
+				return e, true, constant.BoolVal(c.Value)
+			}
+			return e, false, false
+		}
+	}
+	return cond, false, false
 }
